@@ -139,6 +139,11 @@ func (ms *Modules) resolveIdentities() []error {
 
 	var errs []error
 
+	// The dictionary is compiled anew: an identity that an earlier run
+	// found in a module or submodule revision that is no longer reached
+	// must not resolve a base.
+	ms.typeDict.identities.dict = map[string]resolvedIdentity{}
+
 	// A submodule that no module includes any more (a later revision took
 	// its place) is not visited below: forget what an earlier run derived
 	// from its identities.
